@@ -163,6 +163,7 @@ def c10(ctx):
 
 
 def c07(ctx):
+    exc.r_typed_mix(ctx, SW + 'set_vt')
     purity.r_state_closure(ctx, SW + 'set_vt', SW + 'decode')
     misc.r_vtform(ctx)
     exc.r_typed_index(ctx, SW + 'set_vt')
